@@ -30,12 +30,12 @@
 #ifndef XN
 #define XN 16
 #endif
-/* -DXWIDE: room for a stanza element (5 attributes, 18 child slots); the default sizes keep the nonza proofs small.
+/* -DXWIDE: room for a stanza element (6 attributes, 18 child slots); the default sizes keep the nonza proofs small.
    In this mode child slots are SPARSE: a child sits in slot (its id - its parent's id - 1).  With the units' id reservation
    (xw_pad) ids are the same constants on all paths, hence so are the slots; document order is kept (ids grow in writing
    order), absent children are empty slots. */
 #ifdef XWIDE
-#define XA 5
+#define XA 6
 #define XC 18
 #define XWIDE_ONLY(x) x
 #else
@@ -49,7 +49,7 @@ typedef struct xtree {
   /* committed elements, one array per field, index = element id */
   qstr tag[XN + 1], ns[XN + 1], text[XN + 1];
   int nattr[XN + 1]; qstr ak0[XN + 1], ak1[XN + 1], ak2[XN + 1], ak3[XN + 1], av0[XN + 1], av1[XN + 1], av2[XN + 1], av3[XN + 1];
-  XWIDE_ONLY(qstr ak4[XN + 1]; qstr av4[XN + 1]; int c8[XN + 1]; int c9[XN + 1]; int c10[XN + 1]; int c11[XN + 1]; int c12[XN + 1]; int c13[XN + 1]; int c14[XN + 1]; int c15[XN + 1]; int c16[XN + 1]; int c17[XN + 1];)
+  XWIDE_ONLY(qstr ak4[XN + 1]; qstr av4[XN + 1]; qstr ak5[XN + 1]; qstr av5[XN + 1]; int c8[XN + 1]; int c9[XN + 1]; int c10[XN + 1]; int c11[XN + 1]; int c12[XN + 1]; int c13[XN + 1]; int c14[XN + 1]; int c15[XN + 1]; int c16[XN + 1]; int c17[XN + 1];)
   int nchild[XN + 1]; int c0[XN + 1], c1[XN + 1], c2[XN + 1], c3[XN + 1], c4[XN + 1], c5[XN + 1], c6[XN + 1], c7[XN + 1];
   int parent[XN + 1];
   /* elements being written */
@@ -78,7 +78,7 @@ static inline void xw_commit(const xopen *o, int parent) {
   gh_x.nchild[id] = o->nchild;
   gh_x.c0[id] = o->child[0]; gh_x.c1[id] = o->child[1]; gh_x.c2[id] = o->child[2]; gh_x.c3[id] = o->child[3];
   gh_x.c4[id] = o->child[4]; gh_x.c5[id] = o->child[5]; gh_x.c6[id] = o->child[6]; gh_x.c7[id] = o->child[7];
-  XWIDE_ONLY(gh_x.ak4[id] = o->ak[4]; gh_x.av4[id] = o->av[4]; gh_x.c8[id] = o->child[8]; gh_x.c9[id] = o->child[9]; gh_x.c10[id] = o->child[10]; gh_x.c11[id] = o->child[11]; gh_x.c12[id] = o->child[12]; gh_x.c13[id] = o->child[13]; gh_x.c14[id] = o->child[14]; gh_x.c15[id] = o->child[15]; gh_x.c16[id] = o->child[16]; gh_x.c17[id] = o->child[17];)
+  XWIDE_ONLY(gh_x.ak4[id] = o->ak[4]; gh_x.av4[id] = o->av[4]; gh_x.ak5[id] = o->ak[5]; gh_x.av5[id] = o->av[5]; gh_x.c8[id] = o->child[8]; gh_x.c9[id] = o->child[9]; gh_x.c10[id] = o->child[10]; gh_x.c11[id] = o->child[11]; gh_x.c12[id] = o->child[12]; gh_x.c13[id] = o->child[13]; gh_x.c14[id] = o->child[14]; gh_x.c15[id] = o->child[15]; gh_x.c16[id] = o->child[16]; gh_x.c17[id] = o->child[17];)
   gh_x.parent[id] = parent;
 }
 static inline void xw_flush(void) { gh_x.has_pending = false; }
@@ -93,7 +93,7 @@ static inline void xw_new(xopen *o, qstr name) {
   if (name == 0) gh_x.wf = false;                       /* an element without a name is not XML */
   o->id = id; o->tag = name; o->text = 0; o->nattr = 0; o->nchild = 0;
   o->ak[0] = 0; o->ak[1] = 0; o->ak[2] = 0; o->ak[3] = 0; o->av[0] = 0; o->av[1] = 0; o->av[2] = 0; o->av[3] = 0;
-  XWIDE_ONLY(o->ak[4] = 0; o->av[4] = 0; o->child[8] = 0; o->child[9] = 0; o->child[10] = 0; o->child[11] = 0; o->child[12] = 0; o->child[13] = 0; o->child[14] = 0; o->child[15] = 0; o->child[16] = 0; o->child[17] = 0;)
+  XWIDE_ONLY(o->ak[4] = 0; o->av[4] = 0; o->ak[5] = 0; o->av[5] = 0; o->child[8] = 0; o->child[9] = 0; o->child[10] = 0; o->child[11] = 0; o->child[12] = 0; o->child[13] = 0; o->child[14] = 0; o->child[15] = 0; o->child[16] = 0; o->child[17] = 0;)
   o->child[0] = 0; o->child[1] = 0; o->child[2] = 0; o->child[3] = 0; o->child[4] = 0; o->child[5] = 0; o->child[6] = 0; o->child[7] = 0;
   if (gh_x.depth > 0) {
     xopen *par = &gh_x.s[gh_x.depth - 1];
@@ -127,17 +127,17 @@ static inline void xw_writeEndElement(xw *w) { (void)w;
 /* attributes and namespace declarations go to the innermost element while its start tag is open */
 static inline void xw_attr_into(xopen *t, qstr k, qstr v) {
   if (k == 0) { gh_x.wf = false; return; }
-  if ((t->nattr > 0 && t->ak[0] == k) || (t->nattr > 1 && t->ak[1] == k) || (t->nattr > 2 && t->ak[2] == k) || (t->nattr > 3 && t->ak[3] == k) XWIDE_ONLY(|| (t->nattr > 4 && t->ak[4] == k))) { gh_x.wf = false; return; }
+  if ((t->nattr > 0 && t->ak[0] == k) || (t->nattr > 1 && t->ak[1] == k) || (t->nattr > 2 && t->ak[2] == k) || (t->nattr > 3 && t->ak[3] == k) XWIDE_ONLY(|| (t->nattr > 4 && t->ak[4] == k) || (t->nattr > 5 && t->ak[5] == k))) { gh_x.wf = false; return; }
   MODEL_LIMIT(t->nattr < XA, "abstract XML: more attributes than the ghost tree holds");
   if (t->nattr < XA) { t->ak[t->nattr] = k; t->av[t->nattr] = v; t->nattr++; } }
 /* attribute added to the element created by the preceding writeEmptyElement (already committed under id) */
 static inline void xw_attr_into_committed(int id, qstr k, qstr v) {
   if (k == 0 || !X_BUILT(id)) { gh_x.wf = false; return; }
   int n = gh_x.nattr[id];
-  if ((n > 0 && gh_x.ak0[id] == k) || (n > 1 && gh_x.ak1[id] == k) || (n > 2 && gh_x.ak2[id] == k) || (n > 3 && gh_x.ak3[id] == k) XWIDE_ONLY(|| (n > 4 && gh_x.ak4[id] == k))) { gh_x.wf = false; return; }
+  if ((n > 0 && gh_x.ak0[id] == k) || (n > 1 && gh_x.ak1[id] == k) || (n > 2 && gh_x.ak2[id] == k) || (n > 3 && gh_x.ak3[id] == k) XWIDE_ONLY(|| (n > 4 && gh_x.ak4[id] == k) || (n > 5 && gh_x.ak5[id] == k))) { gh_x.wf = false; return; }
   MODEL_LIMIT(n < XA, "abstract XML: more attributes than the ghost tree holds");
   if (n == 0) { gh_x.ak0[id] = k; gh_x.av0[id] = v; } else if (n == 1) { gh_x.ak1[id] = k; gh_x.av1[id] = v; } else if (n == 2) { gh_x.ak2[id] = k; gh_x.av2[id] = v; }
-  else if (n == 3) { gh_x.ak3[id] = k; gh_x.av3[id] = v; } XWIDE_ONLY(else if (n == 4) { gh_x.ak4[id] = k; gh_x.av4[id] = v; })
+  else if (n == 3) { gh_x.ak3[id] = k; gh_x.av3[id] = v; } XWIDE_ONLY(else if (n == 4) { gh_x.ak4[id] = k; gh_x.av4[id] = v; } else if (n == 5) { gh_x.ak5[id] = k; gh_x.av5[id] = v; })
   if (n < XA) gh_x.nattr[id] = n + 1; }
 static inline void xw_writeDefaultNamespace(xw *w, qstr ns) { (void)w;
   if (gh_x.has_pending) { if (X_BUILT(gh_x.pending_id)) gh_x.ns[gh_x.pending_id] = ns; else gh_x.wf = false; return; }
@@ -177,12 +177,12 @@ static inline qstr xdom_attribute(qdom e, qstr name) {
   if (n > 1 && gh_x.ak1[e] == name) return gh_x.av1[e];
   if (n > 2 && gh_x.ak2[e] == name) return gh_x.av2[e];
   if (n > 3 && gh_x.ak3[e] == name) return gh_x.av3[e];
-  XWIDE_ONLY(if (n > 4 && gh_x.ak4[e] == name) return gh_x.av4[e];)
+  XWIDE_ONLY(if (n > 4 && gh_x.ak4[e] == name) return gh_x.av4[e]; if (n > 5 && gh_x.ak5[e] == name) return gh_x.av5[e];)
   return 0; }
 static inline bool xdom_hasAttribute(qdom e, qstr name) {
   if (!X_BUILT(e)) { if (e == 0) return false; if (__CPROVER_uninterpreted_dom_attr(e, name) != 0) return true; return __CPROVER_uninterpreted_dom_has_attr(e, name); }
   int n = gh_x.nattr[e];
-  return (n > 0 && gh_x.ak0[e] == name) || (n > 1 && gh_x.ak1[e] == name) || (n > 2 && gh_x.ak2[e] == name) || (n > 3 && gh_x.ak3[e] == name) XWIDE_ONLY(|| (n > 4 && gh_x.ak4[e] == name)); }
+  return (n > 0 && gh_x.ak0[e] == name) || (n > 1 && gh_x.ak1[e] == name) || (n > 2 && gh_x.ak2[e] == name) || (n > 3 && gh_x.ak3[e] == name) XWIDE_ONLY(|| (n > 4 && gh_x.ak4[e] == name) || (n > 5 && gh_x.ak5[e] == name)); }
 static inline bool xdom_match(int c, qstr tag, qstr ns) { return X_BUILT(c) && (tag == 0 || gh_x.tag[c] == tag) && (ns == 0 || gh_x.ns[c] == ns); }
 /* first child element at position >= from that matches the (possibly empty) filters */
 static inline qdom xdom_child_from(qdom e, int from, qstr tag, qstr ns) {
